@@ -40,7 +40,7 @@ func bodyHas(fn *ssa.Function, withClosuresToo bool, f func(ssa.Instruction) boo
 	}
 	found := false
 	for _, g := range fns {
-		eachInstr(g, func(in ssa.Instruction) {
+		eachInstrLocal(g, func(in ssa.Instruction) {
 			if !found && f(in) {
 				found = true
 			}
